@@ -101,6 +101,8 @@ type vAppCfg struct {
 	shared    bool // -o and -e (and X, Y) declared with the same non-empty default slice
 	defEqEnv  bool // declared defaults equal the values the environment variables carry
 	argsFirst bool // arguments are declared before the options
+	version   bool // the application declares a version flag (-V --version)
+	withSub   bool // the application has one sub-command (k)
 }
 
 // vTableApp is a declared (not yet run) application over the declaration table.
@@ -179,6 +181,12 @@ func vBuildTable(cfg vAppCfg) *vTableApp {
 	if !cfg.argsFirst {
 		declArgs()
 	}
+	if cfg.version {
+		app.Version("V version", "VERSION-9")
+	}
+	if cfg.withSub {
+		app.Command("k", "desc-k", func(c *Cmd) { c.Action = func() {} })
+	}
 	cp := func(p *[]string) []string {
 		if p == nil {
 			return nil
@@ -211,6 +219,7 @@ func vBuildTable(cfg vAppCfg) *vTableApp {
 		stdErr = vDiscard{}
 	}
 	return &vTableApp{run: func(full []string) vOutcome {
+		out.ran, out.err, out.panicked, out.exited = 0, nil, false, false // (the same object may be run again)
 		saved := append([]string(nil), full...)
 		stdErr = vDiscard{}
 		stdOut = vDiscard{}
@@ -320,6 +329,7 @@ const (
 	shLongMissing  // --oo at the very end / followed by nothing usable
 	shPosEmpty     // an empty positional token
 	shFoldDashLong // -a-bb: a flag glued to what would be a long option once the flag is removed
+	shHelp         // -h (only meaningful where help tokens are allowed, i.e. after `--`)
 	nShapes
 )
 
@@ -412,6 +422,8 @@ func vShapeTokens(sh int, lp int) []string {
 		return []string{"--" + vOptTable[vValSel()].long}
 	case shPosEmpty:
 		return []string{""}
+	case shHelp:
+		return []string{"-h"}
 	case shFoldDashLong:
 		f := vFlagSel()
 		g := vChoice("anyopt", nOpts)
